@@ -264,6 +264,49 @@ def arithmetic_sources(ctx, n_random):
     return out
 
 
+def curly_field_sources():
+    """replacement fields whose expression text starts with a brace (a set / dict display or comprehension at the leftmost
+    position of every kind of expression): `{{` would be read as an escaped brace"""
+    displays = ['{}', '{1, 2}', '{1: 2}', '{x for x in y}', '{k: v for k, v in z}', '{*a}', '{**a}']
+    wrappers = ['{D}', '{D} or f', '{D} and f and g', '{D}.keys()', '{D}[0]', '{D}(1)', '{D} == f', '{D} < f <= g', '{D} | f', '{D} - f * 2',
+                '{D} if c else d', '{D}, 1', '{D}.a.b[0](1) or f', '({D})', '{D} is None', '{D} in f', '[{D}]', 'f or {D}', 'lambda: {D}', 'await_({D})']
+    out = []
+    for dsp in displays:
+        for w in wrappers:
+            e = w.replace('{D}', dsp)
+            for tmpl in ('x = f"{%s}"', 'x = f"a{%s!r}b"', 'x = f"{%s:>10}"', 'x = f"{a:{%s}}"', "x = f'{f\"{%s}\"}'"):
+                src = tmpl % ((' ' + e + ' ') if e.startswith('{') or e.endswith('}') else e)
+                try:
+                    compile(src, '<c12>', 'exec', dont_inherit=True)
+                    out.append(src)
+                except (SyntaxError, ValueError):
+                    pass
+    return out
+
+
+def nested_string_attacks():
+    """string and bytes constants *inside a replacement field* whose value tries to close whatever literal the printer may
+    choose (plain, raw, bytes; either quote; triple quotes) and continue as code: backslash runs before a quote, doubled and
+    tripled quotes, a trailing comment marker that hides the real closing quote"""
+    payload = '+str(__import__(chr(111)+chr(115)).getpid())#'
+    vals = []
+    for q in ("'", '"', "'''", '"""', "''", '""', "''''", '""""'):
+        for pre in ('', '\\', '\\\\', '\\\\\\', 'x\\', 'r', 'rb', 'b', ' '):
+            vals.append(pre + q + payload)
+            vals.append(pre + q + payload + q)
+    out = []
+    for v in vals:
+        for wrap in ('x = f"{%s}"', "x = f'{a.count(%s)}'", 'x = f"{%s!r:>{w}}"', "x = f'{b}{%s}{c}'", 'x = f"{[%s][0]}"'):
+            for lit in (repr(v), repr(v.encode('latin-1'))):
+                src = wrap % lit
+                try:
+                    compile(src, '<c12>', 'exec', dont_inherit=True)
+                    out.append(src)
+                except (SyntaxError, ValueError):
+                    pass
+    return out
+
+
 def audit_stage(ctx, sources):
     # warm up lazy imports
     audited_minify("x = f'{a!r:>{w}}{b\"b\"}{\"s\"}' + f'{1 + 2}'")
@@ -296,7 +339,8 @@ def audit_stage(ctx, sources):
 def fstring_sources(ctx, n):
     rng = ctx.rng
     out = []
-    chars = ALPHABET[:-1] + EXTRA_CHARS + ['__import__("os")', "';import os;'", '"""', "'''", '\\N{BULLET}']
+    chars = ALPHABET[:-1] + EXTRA_CHARS + ['__import__("os")', "';import os;'", '"""', "'''", '\\N{BULLET}',
+                                           "\\'+", '\\"+', '+str(__import__(chr(111)+chr(115)).getpid())#', '+', "r'", 'rb"', "\\'''+", "''''+"]
     for _ in range(n):
         parts = []
         for _ in range(rng.randint(1, 4)):
@@ -345,7 +389,9 @@ def run(ctx):
         strings.append(''.join(ctx.rng.choice(ALPHABET + EXTRA_CHARS) for _ in range(ctx.rng.randint(1, 40))))
     ministring_stage(ctx, strings)
     strlex_validation(ctx, ctx.scale(500, 8000))
-    srcs = list(ADVERSARIAL_SOURCES) + fstring_sources(ctx, ctx.scale(150, 3000)) + arithmetic_sources(ctx, ctx.scale(150, 3000))
+    attacks = nested_string_attacks()
+    ctx.exhaustive['nested_string_attacks'] = len(attacks)
+    srcs = list(ADVERSARIAL_SOURCES) + attacks + fstring_sources(ctx, ctx.scale(150, 3000)) + arithmetic_sources(ctx, ctx.scale(150, 3000))
     audit_stage(ctx, srcs)
     for k in ctx.known:
         if k.get('replay_source'):
